@@ -123,6 +123,7 @@ pub fn build_config(cfg: &Value, port: u16) -> MainConfig {
         c.listen = l.parse().unwrap();
     }
     c.port = port;
+    c.dns_lookup = cfg["dns"].as_bool().unwrap_or(false);
     c.name = cfg["name"].as_str().unwrap_or("irc.irc").to_string();
     c.network = cfg["network"].as_str().unwrap_or("IRCnetwork").to_string();
     c.motd = cfg["motd"].as_str().unwrap_or("Hello, world!").to_string();
@@ -271,6 +272,7 @@ pub fn normalize_cfg(cfg: &Value) -> Value {
         "max_connections": o(&cfg["max_connections"]),
         "default_modes": arr(&cfg["default_modes"]),
         "tls": cfg["tls"].as_bool().unwrap_or(false),
+        "dns": cfg["dns"].as_bool().unwrap_or(false),
         "ping": cfg["ping"].as_u64().unwrap_or(3600),
         "pong": cfg["pong"].as_u64().unwrap_or(3600),
         "operators": ops, "users": us, "channels": chs
@@ -301,6 +303,7 @@ pub struct Client {
     pub half_closed: bool,
     pub noread: bool,
     pub raw_ok: bool, // every line so far ended in CR LF
+    pub dns_released: u64, // answers of the (fake) name service released for this connection
 }
 
 pub struct Session {
@@ -323,6 +326,7 @@ pub enum StepIssue {
 impl Session {
     pub async fn start(cfg: &Value) -> Session {
         verif::reset();
+        verif::FAKE_DNS.store(cfg["dns"].as_bool().unwrap_or(false), std::sync::atomic::Ordering::SeqCst);
         let tls = cfg["tls"].as_bool().unwrap_or(false);
         let mut tries = 0;
         loop {
@@ -475,6 +479,7 @@ impl Session {
                 half_closed: false,
                 noread: false,
                 raw_ok: true,
+                dns_released: 0,
             },
         );
         Ok(())
@@ -606,6 +611,9 @@ impl Session {
                     }
                     if c.half_closed {
                         return Some(format!("{}: closed by client, not yet ended", id));
+                    }
+                    if r.dns_done < c.dns_released {
+                        return Some(format!("{}: name service answer not yet handled", id));
                     }
                     if r.lines_done < c.sent_lines {
                         return Some(format!("{}: {} of {} lines done", id, r.lines_done, c.sent_lines));
@@ -875,6 +883,17 @@ impl Session {
                     .filter_map(|i| u8::from_str_radix(&hex[2 * i..2 * i + 2], 16).ok())
                     .collect();
                 let _ = self.send_bytes(id, &data).await;
+            }
+            "!dns" => {
+                // the reverse lookup of this connection completes now (the answer is its address)
+                let key = self.clients.get(id).map(|c| c.key.clone()).unwrap_or_default();
+                if verif::dns_release(&key) {
+                    if let Some(c) = self.clients.get_mut(id) {
+                        c.dns_released += 1;
+                    }
+                } else {
+                    issue = Some("no pending lookup for this connection".to_string());
+                }
             }
             "!noread" => {
                 if let Some(c) = self.clients.get_mut(id) {
